@@ -246,6 +246,7 @@ func checkC16(c *Ctx) Meta {
 	c.popAlias()
 	c.Rule("C16-WRITER", "frames are written whole: only the send routine writes to the connection's socket (every function reaching a raw net.Conn.Write is called from sendRoutine alone), so a keepalive or control frame can never land between the size prefix and the body of another frame", 1)
 	checkSingleWriter(c, "C16-WRITER")
+	checkRoutineOwnedState(c, "C16-WRITER")
 	// ---- RECV: the receiver sees decode failures as errors, never as a nil message
 	c.Rule("C16-RECV", "an undecodable frame reaches the receiver loop as an error: readRemoteMessage returns DecodeMessage's error (never a nil message with a nil error), and messageProcessor touches the message only behind the error test", 2)
 	if f := c.MustFn("C16-RECV", "fractal", "(*MessageReceiver).readRemoteMessage"); f != nil {
@@ -987,5 +988,78 @@ func checkSingleWriter(c *Ctx, rule string) {
 		c.Bad(rule, key, c.Pos(send.Pos()), "the socket can be written outside the send routine (via "+strings.Join(bad, ", ")+"): two goroutines writing frames concurrently interleave a prefix or keepalive with another frame's body, the peer reads a shifted frame (\"unknown msg type\") and the stream is lost")
 	} else {
 		c.OK(rule, key, c.Pos(send.Pos()), fmt.Sprintf("%d function(s) reach the raw Write, all only through sendRoutine", len(reach)))
+	}
+}
+
+// checkRoutineOwnedState: the goroutines of one connection do not share scratch state: no field of Conn
+// is written by code running in two different goroutines of the connection (send, receive, keepalive,
+// aliveness monitor) — a size-prefix buffer shared between the send and the receive routine lets an
+// outgoing frame go out under the incoming frame's length.
+func checkRoutineOwnedState(c *Ctx, rule string) {
+	const pkgConn = repoMod + "/fractal/connection"
+	key := "connection:no-field-written-by-two-routines"
+	roots := map[*ssa.Function]bool{}
+	for fn := range c.AllFuncs {
+		if pkgOf(fn) != pkgConn {
+			continue
+		}
+		allInstrs(fn, func(in ssa.Instruction) {
+			if g, ok := in.(*ssa.Go); ok {
+				if h := g.Call.StaticCallee(); h != nil && pkgOf(h) == pkgConn {
+					roots[h] = true
+				}
+			}
+		})
+	}
+	if len(roots) < 2 {
+		c.Bad(rule, key, "", "reason=anchor-missing: the connection's goroutines (go statements in the connection package)")
+		return
+	}
+	writers := map[string]map[string]bool{} // field -> root names
+	for root := range roots {
+		seen := map[*ssa.Function]bool{}
+		var walk func(f *ssa.Function)
+		walk = func(f *ssa.Function) {
+			if seen[f] {
+				return
+			}
+			seen[f] = true
+			for _, g := range withClosures(f) {
+				for _, a := range fieldAccessesShallow(g) {
+					if a.Write && strings.HasSuffix(a.Type, "connection.Conn") && !isFreshObject(a.Base) {
+						if writers[a.Field] == nil {
+							writers[a.Field] = map[string]bool{}
+						}
+						writers[a.Field][root.Name()] = true
+					}
+				}
+				allInstrs(g, func(in ssa.Instruction) {
+					if _, isGo := in.(*ssa.Go); isGo {
+						return
+					}
+					if h := staticCallee(in); h != nil && pkgOf(h) == pkgConn && !roots[h] {
+						walk(h)
+					}
+				})
+			}
+		}
+		walk(root)
+	}
+	var bad []string
+	for f, rs := range writers {
+		if len(rs) > 1 {
+			var names []string
+			for r := range rs {
+				names = append(names, r)
+			}
+			sort.Strings(names)
+			bad = append(bad, "Conn."+f+" (written by "+strings.Join(names, " and ")+")")
+		}
+	}
+	sort.Strings(bad)
+	if len(bad) > 0 {
+		c.Bad(rule, key, "", strings.Join(bad, "; ")+": two goroutines of one connection write the same field without synchronisation — with the size-prefix buffer shared, a frame is sent under the length of the frame being received and the stream is cut at the wrong place")
+	} else {
+		c.OK(rule, key, "", fmt.Sprintf("%d goroutines per connection, no Conn field written by more than one of them", len(roots)))
 	}
 }
